@@ -147,9 +147,47 @@ def build(d):
     return definitions.XtcePacketDefinition([conts[c] for c in d["corder"]], root_container_name=d["root"])
 
 
+def share_equal_parts(dobj):
+    """Make equal calibrators, encodings and criteria of an object-built definition ONE shared instance each (a thermistor table used
+    by several channels, one encoding object used by several types): how definitions assembled from objects commonly look.  Equality
+    is judged by the harness's projection; this only chooses an input, the definition is projected after the sharing."""
+    import json
+    from harness import project
+    pool = {}
+
+    def intern(o, proj):
+        try:
+            key = (type(o).__name__, json.dumps(proj(o), sort_keys=True, default=str))
+        except Exception:  # noqa: BLE001
+            return o
+        return pool.setdefault(key, o)
+    n = 0
+    for pt in dobj.parameter_types.values():
+        enc = getattr(pt, "encoding", None)
+        if enc is None:
+            continue
+        if getattr(enc, "default_calibrator", None) is not None:
+            enc.default_calibrator = intern(enc.default_calibrator, project.p_cal)
+        for cc in getattr(enc, "context_calibrators", None) or []:
+            cc.calibrator = intern(cc.calibrator, project.p_cal)
+            cc.match_criteria[:] = [intern(m, project.p_crit if type(m).__name__ == "Comparison" else project.p_bexpr) for m in cc.match_criteria]
+        shared = intern(enc, project.p_encoding)
+        if shared is not enc:
+            pt.encoding = shared
+            n += 1
+    for sc in dobj.containers.values():
+        sc.restriction_criteria[:] = [intern(m, project.p_crit if type(m).__name__ == "Comparison" else project.p_bexpr)
+                                      for m in (sc.restriction_criteria or [])]
+    return n
+
+
 def make(d, route):
     """route: ('obj',) | ('xml', style, od, comments)"""
     if route[0] == "obj":
+        if len(route) > 1 and route[1] == "shared":
+            dobj = build(d)
+            share_equal_parts(dobj)
+            return dobj
         return build(d)
     if route[0] == "file":           # a document on disk, loaded as it is: ("file", path, prefix or "", root)
         from space_packet_parser.xtce.definitions import XtcePacketDefinition
